@@ -1,0 +1,49 @@
+// Copyright Suneido Software Corp. All rights reserved.
+// Governed by the MIT license found in the LICENSE file.
+
+//go:build verif && !gui
+
+package dbms
+
+import (
+	"crypto/tls"
+	"net"
+	"sync"
+
+	"github.com/apmckinlay/gsuneido/dbms/mux"
+	"golang.org/x/time/rate"
+)
+
+// Entry points for external verification harnesses (build tag verif).
+// Nothing here is compiled into normal builds.
+
+var verifOnce sync.Once
+var verifConfig *tls.Config
+
+// VerifServeConn runs the real newServerConn (hello, TLS upgrade,
+// unauthorized wrapper, mux server connection with the real command table)
+// on conn, e.g. one end of an in-memory pipe.
+// It returns when the connection ends.
+func VerifServeConn(dbms *DbmsLocal, conn net.Conn) {
+	verifOnce.Do(func() {
+		workers = mux.NewWorkers(doRequest)
+		cert, err := tls.X509KeyPair(ServerCert, ServerKey)
+		if err != nil {
+			panic(err)
+		}
+		verifConfig = &tls.Config{Certificates: []tls.Certificate{cert}}
+	})
+	newServerConn(dbms, conn, verifConfig)
+}
+
+// VerifNoAuthLimit removes the rate limit on authentication attempts
+func VerifNoAuthLimit() {
+	authLimiter = rate.NewLimiter(rate.Inf, 1)
+}
+
+// VerifExpire runs one round of the periodic token and nonce expiry
+// (what background does once per backgroundInterval)
+func VerifExpire() {
+	expireTokens()
+	expireNonces()
+}
